@@ -136,8 +136,6 @@ class Votes(object):
                 # a name the reference binds too, and that lines up with itself in a fair share of its occurrences,
                 # is that variable: it is not renamed onto another one that merely stands where it stood once
                 ref, cnt = cur, d.get(cur, 0)
-            if ref != cur and occ is not None and 2 * cnt <= occ.get(cur, 0):
-                continue        # lined up with that name in a minority of its occurrences only: not the same variable
             cand.append((cnt, cur, ref))
         cand.sort(reverse=True)
         taken, out = {}, {}
